@@ -464,10 +464,11 @@ impl TryFrom<&str> for Rule {
     type Error = error::Token;
 
     fn try_from(value: &str) -> Result<Self, Self::Error> {
-        Ok(biscuit_parser::parser::rule(value)
+        let (_, parsed) = biscuit_parser::parser::rule(value)
             .finish()
-            .map(|(_, o)| o.into())
-            .map_err(biscuit_parser::error::LanguageError::from)?)
+            .map_err(biscuit_parser::error::LanguageError::from)?;
+        super::scope::validate_parsed_scopes(&parsed.scopes)?;
+        Ok(parsed.into())
     }
 }
 
@@ -475,9 +476,10 @@ impl FromStr for Rule {
     type Err = error::Token;
 
     fn from_str(s: &str) -> Result<Self, Self::Err> {
-        Ok(biscuit_parser::parser::rule(s)
+        let (_, parsed) = biscuit_parser::parser::rule(s)
             .finish()
-            .map(|(_, o)| o.into())
-            .map_err(biscuit_parser::error::LanguageError::from)?)
+            .map_err(biscuit_parser::error::LanguageError::from)?;
+        super::scope::validate_parsed_scopes(&parsed.scopes)?;
+        Ok(parsed.into())
     }
 }
